@@ -10,7 +10,7 @@ TIERS = {
 REQUIRED_PROBES = ['instance_processed_2plus_pages_with_lm_carry', 'page_after_predecessor',
                    'fault_swallowed_then_later_page_compared', 'multi_page_run_with_lm_carry', 'scenario_pool',
                    'scenario_crash', 'scenario_seq', 'scenario_oom', 'pool_chunk_with_2plus_pages',
-                   'page_failed_by_injected_oom_later_pages_compared']
+                   'page_failed_by_injected_oom_later_pages_compared', 'same_layout_object_processed_again']
 RULE = ('plans = seeded histories of 2-10 operations (process page / pickle round trip / restart / injected '
         'transient LM exception / line without logits) on up to 3 long-lived PageParser instances over 2-5 '
         'generated pages, decoder knobs randomised per plan; non-trivial = an instance that had already '
